@@ -388,15 +388,24 @@ func init() {
 	bg := context.Background()
 	eng.Register(&eng.Scenario{
 		Name: "keyed-stale-timer", Props: []string{"C06"}, ObsNames: stdObs,
-		Doc:   "Keyed with release delay, freely firing timers: SetKey(a); RemoveKey(a) [timer 1]; SetKey(a) [cancels]; RemoveKey(a) [timer 2]; the key may disappear only once timer 2 has fired (a stale callback of timer 1 must not remove it)",
+		Doc:   "Keyed with release delay, freely firing timers: SetKey(a); RemoveKey(a) [timer 1]; re-request a through SetKey or SyncKeys (choice) [cancels]; RemoveKey(a) [timer 2]; re-request again; the key may disappear only once timer 2 has fired (a stale callback of timer 1 must not remove it)",
 		Quick: eng.Bounds{PB: 2}, Thorough: eng.Bounds{PB: 4},
 		Body: func() {
 			k := keyed.NewKeyed(func(key string) (keyed.Routine, int) { return scriptRoutine(iUntilCancelled), 1 },
 				keyed.WithReleaseDelay[string, int](time.Second))
 			k.SetContext(bg, false)
+			how := vsched.Choose(2) // how the key is requested again: 0 SetKey, 1 SyncKeys
+			rerequest := func() (existed bool) {
+				if how == 0 {
+					_, existed = k.SetKey("a", false)
+					return existed
+				}
+				added, _ := k.SyncKeys([]string{"a"}, false)
+				return len(added) == 0
+			}
 			k.SetKey("a", true)
 			k.RemoveKey("a")
-			if _, existed := k.SetKey("a", false); !existed {
+			if !rerequest() {
 				// timer 1 already expired and removed the key: legitimate, nothing more to check
 				k.ClearContext()
 				return
@@ -412,7 +421,11 @@ func init() {
 			check("after the second RemoveKey")
 			vsched.Point()
 			check("later")
-			k.SetKey("a", false) // requested again: must now stay for good
+			if !rerequest() { // requested again: must now stay for good
+				if _, ok := k.GetKey("a"); !ok {
+					fail("C06.removed-after-rerequest", "key a is missing right after it was requested again")
+				}
+			}
 			vsched.Settle()
 			if _, ok := k.GetKey("a"); !ok {
 				fail("C06.removed-after-rerequest", "key a was requested again before its delay expired but is gone at quiescence")
